@@ -57,7 +57,7 @@ def case(draw, tier):
     ctimes = draw(gen.time_set(start, end - 1, 1, 9 if big else 6))
     # the reference is made by if_then_else (two targets, boolean condition) or by if_cmp (three targets, selected by the
     # three-way result of cmp_(x, 0) for a scripted x)
-    via = draw(st.sampled_from(["ite", "ite", "cmp", "switch", "ite2"]))
+    via = draw(st.sampled_from(["ite", "ite", "cmp", "switch", "ite2", "if_"]))
     if via == "switch" and shape.startswith("TSB"):
         via = "ite"     # a bundle forwarded out of a switch_ keeps the fields last forwarded by the previous branch: not asserted here
     c2 = []
@@ -74,13 +74,22 @@ def case(draw, tier):
     elif via == "ite":
         c = [[t, [{"k": "set", "v": draw(st.booleans())}]] for t in ctimes]
         g = []
+    elif via == "if_":
+        # if_(c, a): a router that RE-PUBLISHES both of its reference fields on every tick of the condition (no
+        # de-duplication of its own); the consumers read one of the two fields. Biased towards repeated values.
+        side = draw(st.booleans())
+        c = [[t, [{"k": "set", "v": side if draw(st.integers(0, 3)) else (not side)}]] for t in ctimes]
+        g = []
     else:
         c = [[t, [{"k": "set", "v": draw(st.sampled_from([-1, 0, 1]))}]] for t in ctimes]
         g = target()
     # the candidate targets are separate outputs, or sibling children of ONE output (elements of a TSL / fields of a TSB)
     siblings = draw(st.sampled_from([None, None, "TSL", "TSB"]))
-    return {"start": start, "end": end, "shape": shape, "a": a, "b": b, "g": g, "via": via, "c": c, "c2": c2, "n_cons": draw(st.integers(1, 3)),
-            "nested": draw(st.integers(0, 3)) == 0, "siblings": siblings}
+    out = {"start": start, "end": end, "shape": shape, "a": a, "b": b, "g": g, "via": via, "c": c, "c2": c2, "n_cons": draw(st.integers(1, 3)),
+           "nested": draw(st.integers(0, 3)) == 0, "siblings": siblings}
+    if via == "if_":
+        out["side"] = side
+    return out
 
 
 def strategy(tier):
@@ -90,6 +99,9 @@ def strategy(tier):
 def schema_of(shape):
     return {"TS[int]": ("TS", "int"), "TSS[int]": ("TSS", "int"), "TSD[int,TS[int]]": ("TSD", "int", ("TS", "int")),
             "TSB[f0:TS[int],f1:TS[int]]": ("TSB", [("f0", ("TS", "int")), ("f1", ("TS", "int"))])}[shape]
+
+
+EMPTY = "(empty)"
 
 
 def tvalid(m):
@@ -130,6 +142,11 @@ def check(case, ctx) -> Result:
                  {"id": "b", "op": "src", "schema": shape, "script": case["b"]},
                  {"id": "sel0", "op": "op", "name": "if_then_else", "args": [{"ts": "c"}, {"ts": "a"}, {"ts": "b"}], "has_out": True}]
         pick = lambda v: "a" if v else "b"
+    elif via == "if_":
+        stmts = [{"id": "c", "op": "src", "schema": "TS[bool]", "script": case["c"]},
+                 {"id": "a", "op": "src", "schema": shape, "script": case["a"]},
+                 {"id": "sel0", "op": "op", "name": "if_", "args": [{"ts": "c"}, {"ts": "a"}], "has_out": True}]
+        pick = lambda v: "a" if v == case["side"] else EMPTY
     elif via == "switch":
         stmts = [{"id": "c", "op": "src", "schema": "TS[int]", "script": case["c"]},
                  {"id": "a", "op": "src", "schema": shape, "script": case["a"]},
@@ -166,14 +183,16 @@ def check(case, ctx) -> Result:
         subs["PA"] = {"params": [shape, shape], "names": ["a", "b"], "out": shape, "stmts": [], "ret": {"arg": 0}}
         subs["PB"] = {"params": [shape, shape], "names": ["a", "b"], "out": shape, "stmts": [], "ret": {"arg": 1}}
     sel = "sel0"
+    if via == "if_":
+        sel = {"r": "sel0", "path": [0 if case["side"] else 1]}      # the "true" / "false" field of the router's output
     if case["nested"]:
         subs["PT"] = {"params": [shape], "out": shape, "stmts": [], "ret": {"arg": 0}}
-        stmts.append({"id": "sel1", "op": "nested", "sub": "PT", "ins": ["sel0"]})
+        stmts.append({"id": "sel1", "op": "nested", "sub": "PT", "ins": [sel]})
         sel = "sel1"
     for j in range(case["n_cons"]):
         stmts.append({"id": f"k{j}", "op": "node", "ins": [sel], "deep": True})
     # a consumer of the reference itself: it must tick only when the selection really changes
-    if via != "switch":
+    if via not in ("switch", "if_"):
         stmts.append({"id": "kref", "op": "node", "ins": ["sel0"], "as_ref": True, "valid": []})
     prog = {"start": start, "end": end, "stmts": stmts}
     if subs:
@@ -195,7 +214,7 @@ def check(case, ctx) -> Result:
         return res
     tr = Trace(resp["trace"])
     sch = schema_of(shape)
-    names = ["a", "b"] + (["g"] if via in ("cmp", "ite2") else [])
+    names = ["a"] if via == "if_" else ["a", "b"] + (["g"] if via in ("cmp", "ite2") else [])
     if via != "ite2":
         pick1 = pick
         pick = lambda st_: pick1(st_["c"]) if "c" in st_ else None
@@ -225,6 +244,16 @@ def check(case, ctx) -> Result:
                 new = cur      # an undefined selection publishes nothing: the previous one stays
         if new is None:
             continue
+        if new == EMPTY:
+            # the router published the EMPTY reference on this field: what the consumer sees of that is not asserted
+            # (silent unbind); from now on ticks of a must not reach it, and the next selection is a fresh bind
+            if cur not in (None, EMPTY):
+                exp[t] = {"kind": "retarget_invalid"}
+            elif cur == EMPTY and MS["a"].modified() and retarget_to_old:
+                unselected_tick_after = True
+            maybe_unbound = True
+            cur = EMPTY
+            continue
         tgt = MS[new]
         retarget = new != cur
         ticked = tgt.modified()
@@ -247,7 +276,8 @@ def check(case, ctx) -> Result:
                 exp[t] = {"kind": "retarget_invalid"}
                 maybe_unbound = True
         elif ticked:
-            exp[t] = {"kind": "tick", "value": val_of(tgt)}
+            exp[t] = {"kind": "tick", "value": val_of(tgt), "old": sorted(tgt.pre) if tgt.k in ("TSS", "TSD") and tgt.pre is not None else None,
+                      "written": sorted(k_ for k_, c_ in tgt.value.items() if c_.written) if tgt.k == "TSD" else None}
         cur = new
         if tvalid(tgt):
             held = val_of(tgt)
@@ -261,7 +291,7 @@ def check(case, ctx) -> Result:
             sel_changes.append(t)
             last = v
     ref_ticks = [d["t"] for d in tr.evals_of("kref", "r") if d["ins"][0].get("m")]
-    if via != "switch" and ref_ticks != sel_changes:
+    if via not in ("switch", "if_") and ref_ticks != sel_changes:
         extra = [t for t in ref_ticks if t not in sel_changes]
         res.violations.append(Viol("reference_republished" if extra else "reference_not_published", f"the reference output ticked at {ref_ticks[:12]} but the selection changed at {sel_changes[:12]}", feats0))
     for j in range(case["n_cons"]):
@@ -289,6 +319,19 @@ def check(case, ctx) -> Result:
             if not g.get("m") or gv != e["value"]:
                 res.violations.append(Viol("wrong_value_through_reference", f"consumer {lbl} at t={t} ({e['kind']}): read {str(gv)[:100]} modified={g.get('m')}, the current target holds {str(e['value'])[:100]}", feats))
                 break
+            if e["kind"] == "tick" and (shape.startswith("TSS") or shape.startswith("TSD")) and e.get("old") is not None:
+                # an ordinary tick of the current target: the consumer's delta is the target's own delta of this cycle
+                acc = g.get("acc") or {}
+                o, n = set(e["old"]), set(e["value"])
+                if shape.startswith("TSS"):
+                    bad = sorted(acc.get("added", [])) != sorted(n - o) or sorted(acc.get("removed", [])) != sorted(o - n)
+                    want = f"added={sorted(n - o)} removed={sorted(o - n)}"
+                else:
+                    bad = sorted(acc.get("modified", [])) != e["written"] or sorted(acc.get("removed", [])) != sorted(o - n)
+                    want = f"modified={e['written']} removed={sorted(o - n)}"
+                if bad:
+                    res.violations.append(Viol("tick_delta_wrong", f"consumer {lbl} at t={t}: the current target ticked with {want} but the consumer's delta reads added={acc.get('added')} removed={acc.get('removed')} modified={acc.get('modified')}", feats))
+                    break
             if e["kind"] == "retarget" and (shape.startswith("TSS") or shape.startswith("TSD")):
                 acc = g.get("acc") or {}
                 new_v = e["value"]
